@@ -294,9 +294,11 @@ Print Assumptions C06_ti_line_once_per_stage.
 (* ---- timeStepFactor f (the bias is updated only at steps that are multiples of f; run protocol run_tsf) ----------------
    The schedule tests carry the factor (centers_update_tsf: continuous update while t - t0 < N + f with lambda = min(t - t0, N)/N,
    staged move when (t - t0 - 1) mod N < f); for f = 1 they are the tests of the model used everywhere else: *)
-Theorem C06_timestepfactor_one : forall T (O : NumOps T) (c : rcfg) (s : rstate) (t rel : Z) (cont : bool),
-  (0 < c_nsteps c)%Z -> centers_update_tsf O 1 c s t rel cont = centers_update O c s t rel cont.
-Proof. exact @centers_update_tsf_1. Qed.
+Theorem C06_timestepfactor_one : forall T (O : NumOps T) (c : rcfg) (s : rstate) (t rel : Z) (cont : bool) (xs : list T),
+  (0 < c_nsteps c)%Z ->
+  centers_update_tsf O 1 c s t rel cont = centers_update O c s t rel cont /\
+  k_update_tsf O 1 c s t rel cont xs = k_update O c s t rel cont xs.
+Proof. exact @tsf_one. Qed.
 Print Assumptions C06_timestepfactor_one.
 
 (* Continuously moving centres are, after ANY history, the scheduled centres of the last updated step f * (t / f) (the
